@@ -392,6 +392,74 @@ impl From<YScalar> for FrRepr {
         FrRepr(s.0)
     }
 }
+/// caller code that panics inside a library call (the caller catches it and keeps using the thread)
+pub struct PanicScalar;
+impl From<PanicScalar> for FrRepr {
+    fn from(_: PanicScalar) -> FrRepr {
+        panic!("simulated: the caller's Into<FrRepr> panicked")
+    }
+}
+/// accepts / delivers `.1` bytes, then panics
+pub struct PanicWriter(pub Vec<u8>, pub usize);
+impl Write for PanicWriter {
+    fn write(&mut self, buf: &[u8]) -> std::io::Result<usize> {
+        if self.0.len() >= self.1 {
+            panic!("simulated: the caller's writer panicked");
+        }
+        let n = (self.1 - self.0.len()).min(buf.len()).max(1).min(buf.len());
+        self.0.extend_from_slice(&buf[..n]);
+        Ok(n)
+    }
+    fn flush(&mut self) -> std::io::Result<()> {
+        Ok(())
+    }
+}
+pub struct PanicReader<'a>(pub &'a [u8], pub usize);
+impl<'a> Read for PanicReader<'a> {
+    fn read(&mut self, buf: &mut [u8]) -> std::io::Result<usize> {
+        if self.1 == 0 {
+            panic!("simulated: the caller's reader panicked");
+        }
+        let n = buf.len().min(self.0.len()).min(self.1);
+        buf[..n].copy_from_slice(&self.0[..n]);
+        self.0 = &self.0[n..];
+        self.1 -= n;
+        Ok(n)
+    }
+}
+pub struct PanicRng(pub CoreRng, pub usize);
+impl rand_core::RngCore for PanicRng {
+    fn next_u32(&mut self) -> u32 {
+        self.next_u64() as u32
+    }
+    fn next_u64(&mut self) -> u64 {
+        if self.1 == 0 {
+            panic!("simulated: the caller's rng panicked");
+        }
+        self.1 -= 1;
+        self.0.next_u64()
+    }
+    fn fill_bytes(&mut self, dest: &mut [u8]) {
+        for b in dest.iter_mut() {
+            *b = self.next_u64() as u8;
+        }
+    }
+    fn try_fill_bytes(&mut self, dest: &mut [u8]) -> Result<(), rand_core::Error> {
+        self.fill_bytes(dest);
+        Ok(())
+    }
+}
+pub struct PanicIter<I>(pub I, pub usize);
+impl<I: Iterator> Iterator for PanicIter<I> {
+    type Item = I::Item;
+    fn next(&mut self) -> Option<I::Item> {
+        if self.1 == 0 {
+            panic!("simulated: the caller's iterator panicked");
+        }
+        self.1 -= 1;
+        self.0.next()
+    }
+}
 pub struct YIter<I>(pub I);
 impl<I: Iterator> Iterator for YIter<I> {
     type Item = I::Item;
@@ -539,7 +607,7 @@ impl RunShared {
         }
     }
     pub fn needs_prepared(ops: &[Op]) -> bool {
-        ops.iter().any(|o| o.k == "miller")
+        ops.iter().any(|o| o.k == "miller" || o.k == "x_cb_pairing")
     }
 }
 
@@ -1011,6 +1079,48 @@ where
         "prepare" => {
             out.extend_from_slice(&G::prepared_image(&G::aff(a(0) % G::nsub())));
         }
+        "x_cb" => {
+            // the caller's own code panics inside a library call; the caller catches it and carries on
+            let r = catch_unwind(AssertUnwindSafe(|| {
+                let mut v = vec![];
+                match a(0) % 5 {
+                    0 => {
+                        let mut t = G::proj(a(1));
+                        t.mul_assign(PanicScalar);
+                        img_proj(&t, &mut v);
+                    }
+                    1 => {
+                        let mut w = PanicWriter(vec![], a(1) % 40);
+                        let _ = G::proj(1 + a(1) % 3).serialize(&mut w, a(1) % 2 == 0);
+                        v.extend_from_slice(&w.0);
+                    }
+                    2 => {
+                        let mut w = PanicWriter(vec![], 1000);
+                        let _ = G::aff(1 + a(1) % 3).serialize(&mut w, a(1) % 2 == 0);
+                        let mut r = PanicReader(&w.0, a(1) % 50);
+                        let _ = G::Affine::deserialize(&mut r, a(1) % 2 == 0).map(|p| img_aff::<G>(&p, &mut v));
+                    }
+                    3 => {
+                        let mut rng = PanicRng(CoreRng(Rng::new(a(1) as u64)), a(1) % 7);
+                        let p = G::random(&mut rng);
+                        img_proj(&p, &mut v);
+                    }
+                    _ => {
+                        // a reader that panics in the second half of an uncompressed record
+                        let mut w = PanicWriter(vec![], 1000);
+                        let _ = G::proj(1 + a(1) % 3).serialize(&mut w, false);
+                        let half = w.0.len() / 2;
+                        let mut r = PanicReader(&w.0, half + a(1) % 3);
+                        let _ = G::deserialize(&mut r, false).map(|p| img_proj(&p, &mut v));
+                    }
+                }
+                v
+            }));
+            match r {
+                Ok(v) => out.extend_from_slice(&v),
+                Err(_) => out.extend_from_slice(b"PANIC"),
+            }
+        }
         "x_pip_topbit" => {
             // documented precondition violated on purpose: one scalar has bit 255 set; its position
             // among scalars with a non-zero top window varies, so the abort happens mid-pass
@@ -1413,6 +1523,34 @@ pub fn eval<'a>(op: &Op, sh: &Shared, rs: &RunShared, tl: &mut ThreadObjs<'a>) -
             let r = catch_unwind(|| hash_to_field::<Fq, Xmd>(b"m", b"d", 128 * 3));
             match r {
                 Ok(v) => v.iter().for_each(|x| x.img(&mut out)),
+                Err(_) => out.extend_from_slice(b"PANIC"),
+            }
+        }
+        "x_cb_pairing" => {
+            let r = catch_unwind(AssertUnwindSafe(|| {
+                let mut v = vec![];
+                match a(0) % 3 {
+                    0 => {
+                        let n = rs.prep_g1.len().min(rs.prep_g2.len());
+                        let pairs: Vec<(&G1Prepared, &G2Prepared)> = (0..n).map(|t| (&rs.prep_g1[t], &rs.prep_g2[t])).collect();
+                        Bls12::miller_loop(PanicIter(pairs.iter(), a(1) % 3)).img(&mut v);
+                    }
+                    1 => {
+                        let mut w = PanicWriter(vec![], a(1) % 600);
+                        let _ = p.fq12[a(1) % p.fq12.len()].serialize(&mut w, true);
+                        v.extend_from_slice(&w.0);
+                    }
+                    _ => {
+                        let mut w = PanicWriter(vec![], 1000);
+                        let _ = p.fq12[a(1) % p.fq12.len()].serialize(&mut w, true);
+                        let mut r = PanicReader(&w.0, a(1) % 600);
+                        Fq12::deserialize(&mut r, true).ok().img(&mut v);
+                    }
+                }
+                v
+            }));
+            match r {
+                Ok(v) => out.extend_from_slice(&v),
                 Err(_) => out.extend_from_slice(b"PANIC"),
             }
         }
